@@ -35,13 +35,13 @@ func (p c12Prov) Shutdown(context.Context) error { return nil }
 // provider table: key -> YAML text returned by provider "aa"
 var c12Table = map[string]string{
 	"K": "v", "N": "42", "B": "true", "F": "1.5", "R": "${aa:K}", "E": "a$$b", "C": "${aa:C}", "C2": "x${aa:C3}", "C3": "${aa:C2}y", "P": "K", "D": "$",
-	"M": "{m: 1, n: [1, two]}", "L": "[1, two]", "Z": "null", "Z2": "~", "RN": "${aa:N}", "MR": "{m: \"${aa:N}\", l: [\"${aa:K}\"]}",
+	"M": "{m: 1, n: [1, two]}", "L": "[1, two]", "Z": "null", "Z2": "~", "RN": "${aa:N}", "NW": " 42\n", "MR": "{m: \"${aa:N}\", l: [\"${aa:K}\"]}",
 }
 
 // what the typed value of each key must be when the reference is the whole value
 var c12Typed = map[string]any{
 	"K": "v", "N": 42, "B": true, "F": 1.5, "R": "v", "E": "a$b", "P": "K", "D": "$",
-	"M": map[string]any{"m": 1, "n": []any{1, "two"}}, "L": []any{1, "two"}, "Z": nil, "Z2": nil, "RN": 42, "MR": map[string]any{"m": 42, "l": []any{"v"}},
+	"M": map[string]any{"m": 1, "n": []any{1, "two"}}, "L": []any{1, "two"}, "Z": nil, "Z2": nil, "RN": 42, "NW": 42, "MR": map[string]any{"m": 42, "l": []any{"v"}},
 }
 
 func c12Resolver(sources []map[string]any, defScheme bool) (*Resolver, error) {
